@@ -47,8 +47,8 @@ def classify(drv, sx, env, got, want, S, prov=(True, True)):
         key = "C02-fmod-sign-of-dividend" if has_mod(sx) and close(rv, cv, S) is False and _only_mod_differs(drv, sx, env, S) else "C02-integer-constant-division"
         # the listed findings are about constructs of the model text; an integer quotient / fmod that the text does not
         # contain (e.g. one the printer invents for a rational coefficient) is something else
-        if key == "C02-fmod-sign-of-dividend" and not prov[1]:
-            return None
+        if key == "C02-fmod-sign-of-dividend":
+            return None      # repaired (fix 64554cd): a C value with the sign of the dividend is a violation again
         if key == "C02-integer-constant-division" and not prov[0]:
             return None
         return key
@@ -280,21 +280,43 @@ def main(argv=None):
     rng = random.Random(a.seed)
     gen = lang.Gen(rng, max_depth=3, p_cond=0.25)
     n = a.n or (36 if a.tier == "quick" else 700)
-    # directed: a unit with missing variables must compile too
-    t = 'states("A", x=1)\nstates("B", y=2)\nexpressions("A")\ndx_dt = y - x\nexpressions("B")\ndy_dt = x - y\n'
+    # directed: a unit with missing variables must compile too, index its missing variables and compute what the numpy code of the
+    # same sub-model computes
+    t = ('states("A", x=1)\nstates("B", y=2, z=0.5)\nparameters("A", k=2)\nexpressions("A")\ni1 = k*y + z\ndx_dt = i1 - x\n'
+         'expressions("B")\ndy_dt = x - y\ndz_dt = -z\n')
     cA = pipeline.Case(drv, t)
     sub = cA.ode.get_component("A").to_ode()
     rep.case(key="missing-variables-unit", nontrivial=True)
-    try:
-        cc = cback.gen_c(sub)
+
+    def missing_unit():
+        cc = cback.gen_c(sub, schemes=["explicit_euler"])
         cm = cback.CModule(cc)
-        ok, log = cm.compile_ok, cm.compile_log
-        cm.close()
-    except Exception as ex:  # noqa: BLE001
-        ok, log = False, repr(ex)
-    if not ok:
-        rep.violation("the C unit generated for a sub-model with missing variables does not compile: " + log.strip().splitlines()[0][:140],
-                      {"kind": "direct", "text": t, "component": "A", "compiler_output": log[:1200]}, finding_key="C02-missing-variables-unit-does-not-compile")
+        try:
+            if not cm.compile_ok:
+                rep.violation("the C unit generated for a sub-model with missing variables does not compile: " + cm.compile_log.strip().splitlines()[0][:140],
+                              {"kind": "direct", "text": t, "component": "A", "compiler_output": cm.compile_log[:1200]})
+                return
+            names = list(sub.missing_variables)
+            got = [cm.index("missing_index", x) for x in names]
+            if got != [sub.missing_variables[x] for x in names] or cm.index("missing_index", "x") != -1:
+                rep.violation(f"C missing_index gives {dict(zip(names, got))}, the model's table is {dict(sub.missing_variables)}",
+                              {"kind": "direct", "text": t, "component": "A"})
+                return
+            pyc = impl.gen_python(sub, schemes=["explicit_euler"])
+            ns, fns = impl.exec_module(pyc), impl.export_functions(pyc)
+            nmon = len(sub.sorted_assignments())
+            for st, ps, ms in (([0.75], [2.0], [1.5, -0.25]), ([-1.25], [0.5], [0.125, 3.0])):
+                for fname, nret, kw in (("rhs", 1, {}), ("monitor_values", nmon, {}), ("explicit_euler", 1, {"dt": 0.125})):
+                    want = np.array(impl.call_numpy(ns[fname], fns[fname]["args"], 0.5, st, ps, missing=ms, **kw), dtype=float)
+                    have, _, _ = cm.call(fname, nret, t=0.5, states=st, params=ps, missing=ms, **kw)
+                    if not np.allclose(np.array(have, dtype=float), want, rtol=1e-12, atol=0):
+                        rep.violation(f"C {fname} of a sub-model with missing variables returns {list(map(float, have))}, the numpy code {want.tolist()}",
+                                      {"kind": "direct", "text": t, "component": "A", "states": st, "params": ps, "missing": ms})
+                        return
+            rep.count("missing_variable_units_compared")
+        finally:
+            cm.close()
+    core.guarded(rep, t, missing_unit)
     # directed: the witnesses of the two open numeric findings
     import textmodel
 
